@@ -265,6 +265,187 @@ impl ClientRoutesUpdate {
     }
 }
 
+/// Verification hook (compiled only with `--cfg scylla_verif`): drives the real `merge_*`
+/// constructors on a hand-off slot and reports what the consumer would take out of it.
+#[cfg(scylla_verif)]
+#[allow(missing_docs)]
+pub(crate) mod verif {
+    use super::*;
+    use crate::cluster::NodeAddr;
+
+    /// Hosts, connection ids and addresses are named by small tags.
+    #[derive(Clone, Debug)]
+    pub enum Step {
+        /// A full fetch completed; `routes`: the client-routes snapshot it read (None: not configured).
+        Full {
+            peers: Vec<u8>,
+            routes: Option<Vec<(u8, u8, u16)>>,
+            refresh_requested: bool,
+        },
+        /// A partial topology fetch completed.
+        Topology {
+            peers: Vec<u8>,
+        },
+        /// A partial client-routes fetch completed: (host, connection, Some(port) | None = removed).
+        Routes {
+            entries: Vec<(u8, u8, Option<u16>)>,
+        },
+        Up(u8),
+        Down(u8),
+        /// The consumer takes whatever is pending.
+        Recv,
+    }
+
+    #[derive(Clone, Debug, PartialEq, Eq, Default)]
+    pub struct Observed {
+        /// (peers, client routes, number of refresh responders)
+        pub full: Option<(Vec<u8>, Option<Vec<(u8, u8, u16)>>, usize)>,
+        pub partial_peers: Option<Vec<u8>>,
+        pub partial_routes: Option<Vec<(u8, u8, Option<u16>)>>,
+        /// (address tag, up?)
+        pub hints: Vec<(u8, bool)>,
+    }
+
+    const BASE: u128 = 0x7e57_0000_0000_0000_0000_0000_0000_0000;
+    fn host(tag: u8) -> Uuid {
+        Uuid::from_u128(BASE + tag as u128)
+    }
+    fn tag_of(id: Uuid) -> u8 {
+        (id.as_u128() - BASE) as u8
+    }
+    fn addr(tag: u8) -> SocketAddr {
+        SocketAddr::from(([127, 9, 9, tag], 9042))
+    }
+    fn peer(tag: u8) -> Peer {
+        Peer {
+            host_id: host(tag),
+            address: NodeAddr::Translatable(addr(tag)),
+            tokens: Vec::new(),
+            datacenter: None,
+            rack: None,
+        }
+    }
+    fn route(h: u8, c: u8, port: u16) -> ClientRoute {
+        ClientRoute {
+            connection_id: format!("c{c}"),
+            host_id: host(h),
+            hostname: "127.0.0.1".to_owned(),
+            port: Some(port),
+            tls_port: None,
+        }
+    }
+    fn conn_tag(s: &str) -> u8 {
+        s.trim_start_matches('c').parse().unwrap_or(255)
+    }
+
+    pub fn run(steps: &[Step]) -> Vec<Option<Observed>> {
+        let mut slot: Option<MetadataUpdate> = None;
+        let mut out = Vec::new();
+        for st in steps {
+            match st {
+                Step::Full {
+                    peers,
+                    routes,
+                    refresh_requested,
+                } => {
+                    let client_routes = routes.as_ref().map(|rs| {
+                        let mut cr = ClientRoutes {
+                            routes: HashMap::new(),
+                        };
+                        cr.extend(rs.iter().map(|(h, c, p)| route(*h, *c, *p)));
+                        cr
+                    });
+                    let metadata = Metadata {
+                        peers: peers.iter().map(|t| peer(*t)).collect(),
+                        keyspaces: HashMap::new(),
+                        cluster_name: None,
+                        client_routes,
+                    };
+                    let responder = refresh_requested.then(|| oneshot::channel().0);
+                    MetadataUpdate::merge_metadata(&mut slot, metadata, responder);
+                }
+                Step::Topology { peers } => MetadataUpdate::merge_topology_update(
+                    &mut slot,
+                    peers.iter().map(|t| peer(*t)).collect(),
+                ),
+                Step::Routes { entries } => {
+                    let mut updates: HashMap<Uuid, HashMap<String, Option<ClientRoute>>> =
+                        HashMap::new();
+                    for (h, c, p) in entries {
+                        updates
+                            .entry(host(*h))
+                            .or_default()
+                            .insert(format!("c{c}"), p.map(|p| route(*h, *c, p)));
+                    }
+                    MetadataUpdate::merge_client_routes_update(
+                        &mut slot,
+                        ClientRoutesUpdate { updates },
+                    );
+                }
+                Step::Up(a) => MetadataUpdate::merge_up_hint(&mut slot, addr(*a)),
+                Step::Down(a) => MetadataUpdate::merge_down_hint(&mut slot, addr(*a)),
+                Step::Recv => out.push(slot.take().map(observe)),
+            }
+        }
+        out
+    }
+
+    fn observe(u: MetadataUpdate) -> Observed {
+        let mut o = Observed::default();
+        o.hints = u
+            .status_hints
+            .iter()
+            .map(|(a, h)| {
+                let t = match a.ip() {
+                    std::net::IpAddr::V4(v) => v.octets()[3],
+                    _ => 255,
+                };
+                (t, *h == StatusHint::Up)
+            })
+            .collect();
+        o.hints.sort();
+        match u.metadata_changes {
+            None => {}
+            Some(MetadataChanges::Full {
+                metadata,
+                refresh_responses,
+            }) => {
+                let routes = metadata.client_routes.map(|cr| {
+                    let mut v: Vec<(u8, u8, u16)> = cr
+                        .routes
+                        .iter()
+                        .flat_map(|(h, m)| {
+                            m.iter()
+                                .map(move |(c, r)| (tag_of(*h), conn_tag(c), r.port.unwrap_or(0)))
+                        })
+                        .collect();
+                    v.sort();
+                    v
+                });
+                o.full = Some((
+                    metadata.peers.iter().map(|p| tag_of(p.host_id)).collect(),
+                    routes,
+                    refresh_responses.len(),
+                ));
+            }
+            Some(MetadataChanges::Partial(p)) => {
+                o.partial_peers = p
+                    .peers
+                    .map(|ps| ps.iter().map(|p| tag_of(p.host_id)).collect());
+                o.partial_routes = p.client_routes_updates.map(|cu| {
+                    let mut v: Vec<(u8, u8, Option<u16>)> = cu
+                        .into_entries()
+                        .map(|(h, c, r)| (tag_of(h), conn_tag(&c), r.and_then(|r| r.port)))
+                        .collect();
+                    v.sort();
+                    v
+                });
+            }
+        }
+        o
+    }
+}
+
 #[cfg(test)]
 mod tests {
 
